@@ -121,6 +121,9 @@ Next ==
            ELSE IF pendC # <<>> THEN Reject("channel_result_missing")
            ELSE UNCHANGED dead
         /\ UNCHANGED <<cfg, rows, got, pendS, pendC>>
+     \* a result handed to a sink changed afterwards (e.g. when the producer re-used its input map for the next row): the
+     \* result of a row depends on that row only
+     ELSE IF e.e = "sinkmut" THEN Reject("result_changed_after_delivery") /\ UNCHANGED <<cfg, rows, got, pendS, pendC>>
      ELSE IF e.e \in {"execerr", "panic"} THEN Reject("engine_" \o e.e) /\ UNCHANGED <<cfg, rows, got, pendS, pendC>>
      ELSE UNCHANGED <<cfg, rows, got, pendS, pendC, dead>>
 
